@@ -222,4 +222,24 @@ StreamResult(op, itemT, lam) ==
       [] op = "Where" -> IF bt = BoolT THEN <<"ok", itemT>> ELSE <<"ValueError", itemT>>
       [] OTHER -> <<"ok", AnyT>>
 
+---------------------------------------------------------------------------
+(* Part 4 (C09): callbacks.  A case places callbacks (class / method / both *)
+(* / function processor / parameterised property) on the thing called at    *)
+(* one or two call sites (site ids 101, 102 = the call's first argument),   *)
+(* in a placement context; rw says the callbacks rewrite the call site      *)
+(* (each appends "_rw" to the called name).                                 *)
+CbKinds(pl) == CASE pl = "class" -> <<"class">>
+                 [] pl = "method" -> <<"method">>
+                 [] pl = "both" -> <<"class", "method">>
+                 [] pl = "func" -> <<"func">>
+                 [] OTHER -> <<"param">>
+Sites(cs) == IF cs.two THEN <<101, 102>> ELSE <<101>>
+(* the planned firings: per site, its callbacks in order *)
+CallbackPlan(cs) == [i \in 1..Len(Sites(cs)) |-> [site |-> Sites(cs)[i], cbs |-> CbKinds(cs.pl)]]
+PlannedPairs(cs) == {<<CbKinds(cs.pl)[j], Sites(cs)[i]>> : i \in 1..Len(Sites(cs)), j \in 1..Len(CbKinds(cs.pl))}
+RECURSIVE Suffixed(_, _)
+Suffixed(nm, n) == IF n = 0 THEN nm ELSE Suffixed(nm, n - 1) \o "_rw"
+BaseName(pl) == CASE pl = "func" -> "cbfn" [] pl = "param" -> "prop" [] OTHER -> "m"
+EmittedName(cs) == IF cs.rw THEN Suffixed(BaseName(cs.pl), Len(CbKinds(cs.pl))) ELSE BaseName(cs.pl)
+
 =============================================================================
